@@ -6,6 +6,7 @@ package h_c11
 
 import (
 	"github.com/elys-network/elys/zzvrf/h_c09"
+	"github.com/elys-network/elys/zzvrf/h_c10"
 )
 
 //vrf:cover open-ok
@@ -37,3 +38,8 @@ func H_Close_Short() { h_c09.H_Close_Short_SameBlock() }
 //vrf:bound see h_c09.H_ClosePositions_Long_AtomCollateral
 //vrf:max-paths 8000
 func H_ClosePositions_Long() { h_c09.H_ClosePositions_Long_AtomCollateral() }
+
+//vrf:cover done
+//vrf:bound see h_c10.H_Perp_ClosePositions_TwoOfOnePool_Ledger
+//vrf:max-paths 6000
+func H_ClosePositions_TwoOfOnePool() { h_c10.H_Perp_ClosePositions_TwoOfOnePool_Ledger() }
